@@ -314,6 +314,10 @@ func genCase(t *rapid.T) Case {
 	if c.Route == "raw" {
 		c.Verb = "GET"
 	}
+	if (c.Route == "raw" || c.Route == "rb-body") && c.Verb == "GET" && rapid.IntRange(0, 2).Draw(t, "oddCT") == 0 {
+		// HttpBody replies travel raw under their own type, whatever type (registered or not) the request names
+		c.ContentType = rapid.SampledFrom([]string{"image/jpeg", "text/plain", "application/x-unknown"}).Draw(t, "oddCTv")
+	}
 	c.HeaderMode = rapid.SampledFrom([]string{"", "", "set", "send"}).Draw(t, "headerMode")
 	c.Later = rapid.SampledFrom([]int{0, 0, 1, 2}).Draw(t, "later")
 	c.ReqGzip = c.Verb == "POST" && rapid.IntRange(0, 3).Draw(t, "reqGzip") == 0
